@@ -12,9 +12,6 @@ NOT_APPLICABLE = {
     'C02': 'routing of calls/replies lives in broker.rs handlers, which neither verifier can ingest (Verus rejects '
            'ref patterns, pattern closures, for-loops over impl Iterator, break-with-value; Kani cannot hold a '
            'ConnectionId = Arc<Mutex>); no function contract within reach states "exactly one reply".',
-    'C03': 'registry handlers (create_service, destroy_object, remove_object, remove_service) use ref patterns / for-loops '
-           'over impl Iterator (outside Verus\'s subset); create_object relies on UUID freshness, which no contract can state; '
-           'a unit holding destroy_service alone would decide no clause. Object (unit broker_object) is proved under C02.',
     'C06': 'quantifies over schedules of async tasks; Kani has no scheduler/thread model, Verus would need '
            'permission-typed futures; no per-function contract expresses absence of lost wake-ups.',
     'C09': 'teardown (shutdown_connection, remove_* helpers: for-loops over impl Iterator) and the statistics counters '
